@@ -122,6 +122,7 @@ def _mk_query(qd):
     import dns.name
 
     labels = [bytes.fromhex(h) for h in qd["name"]]
+    assert W.wire_len(labels) <= 255, "generator: query name longer than 255 octets"
     q = dns.message.make_query(
         dns.name.Name(labels),
         qd["rdtype"],
@@ -217,13 +218,16 @@ def _check_identity(r, d, orr, where):
             (tuple(W.lower(l) for l in o), t, c, ttl, rd) for (o, t, c, ttl, rd) in d.sections[secno]
         )
         got = _section_rrs(sec)
-        if got != want:
+        nrr = len(want)
+        # an rrset is a set: identical RRs in one datagram merge (unless one_rr_per_rrset)
+        want = sorted(set(want))
+        if sorted(set(got)) != want or (len(got) != len(want) and not orr):
             raise Violation(
                 "identity",
                 f"{where}: section {secno + 1} holds {got!r}, the datagram holds {want!r}",
                 "records",
             )
-        nsets = len(want) if orr else len({(o, t, c) for (o, t, c, _, _) in want})
+        nsets = nrr if orr else len({(o, t, c) for (o, t, c, _, _) in want})
         if len(sec) != nsets:
             raise Violation(
                 "identity",
@@ -1365,7 +1369,8 @@ def _answers(draw, qlabels, ttl, big=False, need=0):
             (owner, NM.T_MX, NM.C_IN, ttl, b"\x00\x0a" + NM.enc_name([b"mx", ("ptr", 12)])),
         ]
     s = draw(st.binary(min_size=0, max_size=20))
-    return [(owner, NM.T_TXT, NM.C_IN, ttl, bytes([len(s)]) + s), (owner, NM.T_TXT, NM.C_IN, ttl, b"\x01z")]
+    s2 = s + b"!"  # distinct RDATA: an rrset is a set, duplicates would merge
+    return [(owner, NM.T_TXT, NM.C_IN, ttl, bytes([len(s)]) + s), (owner, NM.T_TXT, NM.C_IN, ttl, bytes([len(s2)]) + s2)]
 
 
 _CONTENT_DECOYS = [
@@ -1857,25 +1862,25 @@ def _udp_require():
 
 
 def _stream_require():
-    req = {"__nontrivial__": 400, "async-twin": 9000, "api:receive_tcp": 2500, "api:tcp": 2500,
-           "api:send_tcp": 1000, "would-block": 2000, "partial-send": 1000, "send-would-block": 1200,
-           "send-timeout": 200, "send-timeout-mid-frame": 60, "send-what:msg": 250,
+    req = {"__nontrivial__": 400, "async-twin": 6500, "api:receive_tcp": 2000, "api:tcp": 1800,
+           "api:send_tcp": 800, "would-block": 2000, "partial-send": 1000, "send-would-block": 1200,
+           "send-timeout": 150, "send-timeout-mid-frame": 60, "send-what:msg": 250,
            "send-what:bytes": 400, "payload>255": 150, "payload-empty": 30,
            "eof-mid-frame": 200, "eof-in-length-prefix": 30, "eof-at-boundary": 1000,
            "timeout-mid-frame": 100, "timeout-at-boundary": 300, "hang-mid-frame": 10,
            "split-in-length-prefix": 300, "event-spans-prefix": 500, "one-octet-chunks": 100,
            "zero-length-frame": 50, "frame>255": 200, "pipelined>=2": 200,
-           "final:done": 1000, "final:EOFError": 1500, "final:Timeout": 800, "final:ParseError": 300,
-           "final:BadResponse": 60, "it=0": 3000, "it=1": 3000, "orr=0": 3000, "orr=1": 3000}
+           "final:done": 1000, "final:EOFError": 1500, "final:Timeout": 800, "final:ParseError": 200,
+           "final:BadResponse": 60, "it=0": 2000, "it=1": 2000, "orr=0": 2000, "orr=1": 2000}
     for k in ("genuine", "big", "case_variant", "tc_genuine", "special_empty_q"):
         req["frame-read:" + k] = 80
     for k in ("garbage_short", "garbage_hdr", "trunc_mid_q", "trunc_mid_an", "trailing", "tsig_signed",
               "empty_datagram"):
-        req["frame-bad:" + k] = 20
+        req["frame-bad:" + k] = 10
     for k in ("wrong_id", "qr_clear", "other_name", "other_opcode"):
         req["frame-bad:" + k] = 8
     if EXCLUDE_D19:
-        req["excluded:D19"] = 20
+        req["excluded:D19"] = 10
     return req
 
 
@@ -1891,13 +1896,13 @@ def parts(tier):
     return [
         Part(
             "udp", run_udp, strategy=udp_cases(),
-            n={"quick": 16000, "thorough": 16 * 10000},
+            n={"quick": 12000, "thorough": 16 * 10000},
             case_timeout_s=10.0,
             require=_udp_require(),
         ),
         Part(
             "stream", run_stream, strategy=stream_cases(),
-            n={"quick": 12000, "thorough": 16 * 7500},
+            n={"quick": 9000, "thorough": 16 * 7500},
             case_timeout_s=10.0,
             require=_stream_require(),
         ),
